@@ -16,14 +16,22 @@ def run(args):
         ctx.obligations.append(ob)
     else:
         cases, metas = ctx.run_harness("fmt")
-        cli = [c for c in cases if c[0].startswith("c09 cli ")]
+        cli = [c for c in cases if c[0].startswith("c09 ")]
         files = [c for c in cases if not c[0].startswith("c09 ")]
         model = ctx.run_driver([c[0] for c in cli])
         ctx.tie("model = real `incan fmt` / --check / --diff (exit status, file rewritten or not) over file kind × mode", cli, model)
         for req, real in cli:
             p = req.split(" ")
-            kind, check, diff = p[2], p[3] == "true", p[4] == "true"
             ctx.nontrivial.add(req)
+            if p[1] == "clidir":
+                check, diff = p[2] == "true", p[3] == "true"
+                status, fstates = real.split(" ")
+                if (check or diff) and any(f != "unchanged" for f in fstates.split(",")):
+                    failures.append({"request": req, "real": real, "why": "--check/--diff modified a file of the directory"})
+                if not (check or diff) and fstates != "rewritten-formatted,unchanged,rewritten-formatted,unchanged,rewritten-formatted":
+                    failures.append({"request": req, "real": real, "why": "fmt must rewrite exactly the unformatted files"})
+                continue
+            kind, check, diff = p[2], p[3] == "true", p[4] == "true"
             if (check or diff) and "unchanged" not in real:
                 failures.append({"request": req, "real": real, "why": "--check/--diff modified the file"})
             if kind == "formatted" and real != "exit0 unchanged":
